@@ -2,7 +2,9 @@
 
 _COMMON_NOTE = ('Trusted: Coq 8.16.1 kernel (vm_compute for finite sweeps, no native_compute), no axioms declared; '
                 'tools/translate.py; extraction (ExtrOcamlBasic only) + ocaml/driver.ml; the python harness. '
-                'All python code is modelled, not verified: the hand model is tied to /repo by the correspondence run. ')
+                'All python code is modelled, not verified: the hand model is tied to /repo by the correspondence run, by the '
+                'tables the translator regenerates, and by the state-inventory obligation Cxx_state_as_modelled (no attribute, '
+                'class-level table, module binding or decorator beyond those the model knows - gen/StateGen.v vs model/StateBase.v). ')
 
 CHECKS = {
     'C01': {
